@@ -98,6 +98,9 @@ func (t *txmonitor) watchLoop() {
 				}
 			}
 		}
+		// the waiters are gone: a receipt batch still in flight must not find
+		// (and send on) their closed channels
+		t.waitMap = make(map[uint64]map[common.Hash][]chan Result)
 	}()
 
 	lastBlock := uint64(0)
